@@ -40,8 +40,8 @@ AcceptsGet(i, e) == ~(i = "rocket" /\ e = "batch")
 
 (* ---- documents ----------------------------------------------------------- *)
 (* A document is a sequence of operation definitions; only the operation type *)
-(* and name matter here.  The harness renders  query Q(..) { ping(..) }  and  *)
-(* mutation M(..) { bump(..) }.                                               *)
+(* and name matter here ("" = anonymous).  The harness renders                *)
+(*   query Q(..) { ping(..) }   and   mutation M(..) { bump(..) }.            *)
 Ops == { [type |-> "query",    name |-> "Q"], [type |-> "mutation", name |-> "M"],
          [type |-> "query",    name |-> ""],  [type |-> "mutation", name |-> ""] }
 NoOp == [type |-> "none", name |-> ""]
@@ -53,36 +53,58 @@ RECURSIVE SeqsOf(_, _)
 SeqsOf(S, n) == IF n = 0 THEN {<<>>} ELSE { Append(s, x) : s \in SeqsOf(S, n - 1), x \in S }
 Docs == { d \in SeqsOf(Ops, 1) \cup SeqsOf(Ops, 2) : ValidDoc(d) }
 
-\* GraphQL 6.1 GetOperation(document, operationName); "" is the absent operationName
-GetOperation(d, n) ==
-  IF n = "" THEN (IF Len(d) = 1 THEN d[1] ELSE NoOp)
-  ELSE IF \E i \in 1..Len(d) : d[i].name = n
+(* GraphQL 6.1 GetOperation(document, operationName).  The operationName of a  *)
+(* request is  absent (null)  |  present but empty  |  given (a name).  Only an *)
+(* absent name selects the sole operation; a present name -- the empty string   *)
+(* included: no operation is *named* "", an anonymous operation has no name --  *)
+(* must be the name of an operation of the document, otherwise nothing is       *)
+(* selected and the request is answered with a request error.                   *)
+GetOperation(d, k, n) ==
+  IF k = "absent" THEN (IF Len(d) = 1 THEN d[1] ELSE NoOp)
+  ELSE IF k = "given" /\ n # "" /\ \E i \in 1..Len(d) : d[i].name = n
        THEN d[CHOOSE i \in 1..Len(d) : d[i].name = n]
        ELSE NoOp
 
-\* one GraphQL request: document + operationName; generated only where an operation can be selected
-Items == { it \in [doc : Docs, op : {"", "Q", "M"}] : GetOperation(it.doc, it.op) # NoOp }
-Selected(it) == GetOperation(it.doc, it.op)
+\* one GraphQL request: document + operationName in {absent, empty, Q, M, X (unknown)}
+Items == { it \in [doc : Docs, opk : {"absent", "empty", "given"}, op : {"", "Q", "M", "X"}] :
+             (it.opk = "given") <=> (it.op # "") }
+Selected(it) == GetOperation(it.doc, it.opk, it.op)
+SelItems == { it \in Items : Selected(it) # NoOp }
 HasMutation(d) == \E i \in 1..Len(d) : d[i].type = "mutation"
+\* the request put into the JSON body of a GET (which must be ignored): a plain mutation
+Probe == [doc |-> << [type |-> "mutation", name |-> "M"] >>, opk |-> "absent", op |-> ""]
 
 (* ---- the matrix ---------------------------------------------------------- *)
-(* GET carries exactly one request in the query string (every integration     *)
-(* builds BatchRequest::Single from it); POST carries a JSON object or, where *)
-(* the entry accepts it, a JSON array of BatchLen requests.                   *)
+(* A cell: integ, entry, method, accept, qs, body.                            *)
+(*  qs    the request carried in the query string (query, operationName,      *)
+(*        variables): <<>> = no query string at all, else one request         *)
+(*  body  the requests of the JSON body: <<>> none, one = a JSON object,      *)
+(*        two or more = a JSON array (batch)                                  *)
+(* GET: the request is the one of the query string (every integration builds  *)
+(* BatchRequest::Single from it); a body sent along -- one mutation, or a     *)
+(* batch of two -- is not part of a GET request and must be ignored, with and *)
+(* without a query string.  POST: the request(s) of the body; batches of      *)
+(* BatchLen requests where the entry accepts a JSON array.                    *)
 (* accept = "mixed": the request asks for multipart/mixed (Accept: multipart/ *)
 (* mixed; boundary="graphql"; subscriptionSpec="1.0"); the ready-made services *)
 (* then extract a single request and run it through Executor::execute_stream   *)
 (* instead of execute_batch -- a second path to the executor behind the same   *)
 (* GET branch.  The property does not depend on it.                            *)
-SingleCells == { c \in [integ : Integrations, entry : {"service", "single", "batch"}, method : Methods,
-                        accept : {"json", "mixed"}, frame : {"single"}, items : SeqsOf(Items, 1)] :
-                   /\ c.entry \in Entries(c.integ)
-                   /\ c.method = "GET" => AcceptsGet(c.integ, c.entry)
-                   /\ c.accept = "mixed" => c.entry = "service" }
-BatchCells  == { c \in [integ : Integrations, entry : {"service", "batch"}, method : {"POST"},
-                        accept : {"json"}, frame : {"batch"}, items : SeqsOf(Items, BatchLen)] :
-                   c.entry \in Entries(c.integ) /\ AcceptsBatch(c.integ, c.entry) }
-Cells == SingleCells \cup BatchCells
+AllEntries == {"service", "single", "batch"}
+GetCells  == { c \in [integ : Integrations, entry : AllEntries, method : {"GET"}, accept : {"json", "mixed"},
+                      qs : SeqsOf(Items, 0) \cup SeqsOf(Items, 1),
+                      body : {<<>>, <<Probe>>, <<Probe, Probe>>}] :
+                 /\ c.entry \in Entries(c.integ) /\ AcceptsGet(c.integ, c.entry)
+                 /\ c.accept = "mixed" => (c.entry = "service" /\ c.body = <<>> /\ c.qs # <<>>) }
+PostCells == { c \in [integ : Integrations, entry : AllEntries, method : {"POST"}, accept : {"json", "mixed"},
+                      qs : {<<>>}, body : SeqsOf(Items, 1) \cup SeqsOf(SelItems, BatchLen)] :
+                 /\ c.entry \in Entries(c.integ)
+                 /\ Len(c.body) > 1 => (AcceptsBatch(c.integ, c.entry) /\ c.accept = "json")
+                 /\ c.accept = "mixed" => c.entry = "service" }
+Cells == GetCells \cup PostCells
+
+\* the requests a server has to consider: the query string for GET, the body for POST
+Effective(c) == IF c.method = "GET" THEN c.qs ELSE c.body
 
 (* ---- the property as reference operators ---------------------------------- *)
 MayExecute(method, opType) == ~(method = "GET" /\ opType = "mutation")
@@ -90,9 +112,10 @@ MayExecute(method, opType) == ~(method = "GET" /\ opType = "mutation")
 \* mutation resolver runs demanded / allowed for one request
 ItemEffect(method, it) == IF Selected(it).type = "mutation" /\ MayExecute(method, "mutation") THEN 1 ELSE 0
 ItemReads(method, it)  == IF Selected(it).type = "query" THEN 1 ELSE 0
-MustError(method, it)  == ~MayExecute(method, Selected(it).type)
-ExpectedEffects(c) == Cardinality({ k \in 1..Len(c.items) : ItemEffect(c.method, c.items[k]) = 1 })
-ExpectedReads(c)   == Cardinality({ k \in 1..Len(c.items) : ItemReads(c.method, c.items[k]) = 1 })
+MustError(method, it)  == ~MayExecute(method, Selected(it).type)      \* the gate
+NoSelection(it)        == Selected(it) = NoOp                          \* 6.1: request error
+ExpectedEffects(c) == Cardinality({ k \in 1..Len(Effective(c)) : ItemEffect(c.method, Effective(c)[k]) = 1 })
+ExpectedReads(c)   == Cardinality({ k \in 1..Len(Effective(c)) : ItemReads(c.method, Effective(c)[k]) = 1 })
 
 \* today's code (named deviations, one per integration): no gate, a selected mutation always runs
 DevName(i) == CASE i = "axum"      -> "DevGetMutationAxum"
@@ -100,10 +123,11 @@ DevName(i) == CASE i = "axum"      -> "DevGetMutationAxum"
                 [] i = "poem"      -> "DevGetMutationPoem"
                 [] i = "warp"      -> "DevGetMutationWarp"
                 [] i = "rocket"    -> "DevGetMutationRocket"
-\* trigger: the only requests on which the deviation can show
+\* trigger: the only requests on which the deviation can show -- the operation selected by the
+\* QUERY STRING's query/operationName is a mutation (never: nothing selected, never: the body)
 DevTrigger(method, it) == method = "GET" /\ Selected(it).type = "mutation"
 DevItemEffect(it)  == IF Selected(it).type = "mutation" THEN 1 ELSE 0
-DevEffects(c)      == Cardinality({ k \in 1..Len(c.items) : DevItemEffect(c.items[k]) = 1 })
+DevEffects(c)      == Cardinality({ k \in 1..Len(Effective(c)) : DevItemEffect(Effective(c)[k]) = 1 })
 
 (* ---- handling of one HTTP request ----------------------------------------- *)
 VARIABLES cell, pc, pending, sel, effects, reads, outcome
@@ -113,24 +137,30 @@ Init == /\ cell \in Cells
         /\ pc = "recv" /\ pending = <<>> /\ sel = NoOp
         /\ effects = 0 /\ reads = 0 /\ outcome = <<>>
 
-\* the extractor: query string (GET) or JSON body (POST) -> the requests to execute
+\* the extractor: query string (GET) or JSON body (POST) -> the requests to execute.
+\* A GET without a query string is an empty request: an error, whatever its body says.
 Decode == /\ pc = "recv"
-          /\ pending' = cell.items /\ pc' = "select"
-          /\ UNCHANGED <<cell, sel, effects, reads, outcome>>
+          /\ pending' = Effective(cell) /\ pc' = "select"
+          /\ outcome' = IF Effective(cell) = <<>> THEN <<"error">> ELSE <<>>
+          /\ UNCHANGED <<cell, sel, effects, reads>>
 
 \* operation selection (prepare_request)
 Select == /\ pc = "select" /\ pending # <<>>
           /\ sel' = Selected(Head(pending)) /\ pc' = "gate"
           /\ UNCHANGED <<cell, pending, effects, reads, outcome>>
 
+\* GetOperation found nothing (unknown / empty operationName, ambiguous document): request error
+Unselected == /\ pc = "gate" /\ sel = NoOp
+              /\ outcome' = Append(outcome, "error") /\ pending' = Tail(pending) /\ pc' = "select"
+              /\ UNCHANGED <<cell, sel, effects, reads>>
 \* the method gate: a mutation selected by a GET request is answered with an error, nothing runs
-Reject == /\ pc = "gate" /\ ~MayExecute(cell.method, sel.type) /\ cell.integ \notin Dev
+Reject == /\ pc = "gate" /\ sel # NoOp /\ ~MayExecute(cell.method, sel.type) /\ cell.integ \notin Dev
           /\ outcome' = Append(outcome, "error") /\ pending' = Tail(pending) /\ pc' = "select"
           /\ UNCHANGED <<cell, sel, effects, reads>>
-Admit  == /\ pc = "gate" /\ MayExecute(cell.method, sel.type)
+Admit  == /\ pc = "gate" /\ sel # NoOp /\ MayExecute(cell.method, sel.type)
           /\ pc' = "exec" /\ UNCHANGED <<cell, pending, sel, effects, reads, outcome>>
 \* DevGetMutation<Integration>: the GET-decoded request goes straight to the executor
-DevGetMutation == /\ pc = "gate" /\ ~MayExecute(cell.method, sel.type) /\ cell.integ \in Dev
+DevGetMutation == /\ pc = "gate" /\ sel # NoOp /\ ~MayExecute(cell.method, sel.type) /\ cell.integ \in Dev
                   /\ pc' = "exec" /\ UNCHANGED <<cell, pending, sel, effects, reads, outcome>>
 
 Execute == /\ pc = "exec"
@@ -142,31 +172,38 @@ Execute == /\ pc = "exec"
 Respond == /\ pc = "select" /\ pending = <<>>
            /\ pc' = "done" /\ UNCHANGED <<cell, pending, sel, effects, reads, outcome>>
 
-Next == Decode \/ Select \/ Reject \/ Admit \/ DevGetMutation \/ Execute \/ Respond
+Next == Decode \/ Select \/ Unselected \/ Reject \/ Admit \/ DevGetMutation \/ Execute \/ Respond
 Spec == Init /\ [][Next]_vars /\ WF_vars(Next)
 
 (* ---- invariants ------------------------------------------------------------ *)
+Answers(c) == IF Effective(c) = <<>> THEN 1 ELSE Len(Effective(c))
 TypeOK == /\ cell \in Cells
           /\ pc \in {"recv", "select", "gate", "exec", "done"}
           /\ effects \in 0..BatchLen /\ reads \in 0..BatchLen
-          /\ Len(outcome) + Len(pending) = (IF pc = "recv" THEN 0 ELSE Len(cell.items))
+          /\ Len(outcome) + Len(pending) = (IF pc = "recv" THEN 0 ELSE Answers(cell))
 \* the property, at every step of the handling: no mutation resolver runs for a GET request
 GetNeverMutates == cell.method = "GET" => effects = 0
 \* ... and it is answered with an error
 GetMutationAnswered ==
-  pc = "done" => \A k \in 1..Len(cell.items) : MustError(cell.method, cell.items[k]) => outcome[k] = "error"
+  pc = "done" => \A k \in 1..Len(Effective(cell)) : MustError(cell.method, Effective(cell)[k]) => outcome[k] = "error"
 \* the machine agrees with the reference operators the verdicts are computed from
 DoneMatchesReference ==
   pc = "done" => /\ effects = ExpectedEffects(cell) /\ reads = ExpectedReads(cell)
-                 /\ \A k \in 1..Len(cell.items) : (outcome[k] = "error") <=> MustError(cell.method, cell.items[k])
-\* the gate touches nothing but GET + mutation: POST runs everything, queries run on both methods
+                 /\ \A k \in 1..Len(Effective(cell)) :
+                      (outcome[k] = "error") <=> (MustError(cell.method, Effective(cell)[k]) \/ NoSelection(Effective(cell)[k]))
+                 /\ Effective(cell) = <<>> => outcome = <<"error">>
+\* the gate touches nothing but GET + mutation: POST runs everything that is selected
 PostUnaffected == pc = "done" /\ cell.method = "POST" =>
-                    /\ effects = DevEffects(cell) /\ \A k \in 1..Len(outcome) : outcome[k] = "data"
-\* statements about the matrix / reference operators themselves
-CellDemands == /\ cell.method = "GET" => ExpectedEffects(cell) = 0 /\ Len(cell.items) = 1
-               /\ (cell.method = "GET" /\ DevTrigger("GET", cell.items[1])) => MustError("GET", cell.items[1])
+                    /\ effects = DevEffects(cell)
+                    /\ \A k \in 1..Len(outcome) : (outcome[k] = "data") <=> ~NoSelection(cell.body[k])
+\* statements about the matrix / reference operators themselves: a GET demands 'no effect' whatever
+\* its body and operationName are; the deviation's trigger is exactly the gate's domain
+CellDemands == /\ cell.method = "GET" => (ExpectedEffects(cell) = 0 /\ Len(cell.qs) <= 1)
                /\ cell.method = "POST" => ExpectedEffects(cell) = DevEffects(cell)
-               /\ \A k \in 1..Len(cell.items) : DevTrigger(cell.method, cell.items[k]) <=> MustError(cell.method, cell.items[k])
+               /\ \A k \in 1..Len(Effective(cell)) :
+                     /\ DevTrigger(cell.method, Effective(cell)[k]) <=> MustError(cell.method, Effective(cell)[k])
+                     /\ NoSelection(Effective(cell)[k]) => (~DevTrigger(cell.method, Effective(cell)[k])
+                                                            /\ DevItemEffect(Effective(cell)[k]) = 0)
 Terminates == <>(pc = "done")
 
 (* ---- mode G ----------------------------------------------------------------- *)
